@@ -29,7 +29,7 @@ impl Property for C06 {
     type Scenario = Scenario;
 
     fn rule() -> String {
-        "wirekit: one TCP connection between two seeded application programs (write chunkings incl. 0/1-byte writes, poll_write or try_write, reader buffers of 1 byte ... larger than the transfer, peek, half-close by shutdown / dropped write half / stream drop after EOF, server- or client-speaks-first, both directions at once, 0-2 KiB per direction) over the real turmoil-net stack on 2 hosts (IPv4/IPv6; plus loopback and own-address variants without wire faults), KernelConfig seeded (MSS 1..1460 via mtu, send/recv caps 1 B..64 KiB incl. below one MSS and below the transfer, retx_threshold 2-4, retx_max 1-6), on a hand-rolled executor whose poll order and spurious polls are scenario data. The harness is the wire: every packet between egress_all and deliver gets a fate (deliver / hold k rounds / drop) by packet index or by classified kind (SYN, SYN-ACK, handshake ACK, DATA, ACK, window update, FIN, RST), due packets are delivered in a scenario-chosen order. Fault enumeration: each fault-free seeded workload is run once to record its packet sequence, then re-run once per packet index x {drop, delay 1, delay d_max} (thorough: also all pairs for sequences <= 25 packets); plus seeded multi-fault plans inside the premise (drops <= retx_max-1, delays bounded so that all drops, one delayed segment and its delayed ACK on one round trip stay 4 rounds below retx_threshold*(retx_max+1)), a 1/16 slice end-to-end through turmoil-net's own fixture::ClientServer / fixture::lo (paused tokio runtime, built-in scheduler) with the plan installed as a Rule closure (Drop / Deliver(k ms)), exhaustion plans (everything / one direction lost from packet k on) and unbounded plans (safety only). Oracle: safety always (bytes read/peeked equal the position-coded bytes the peer's writes accepted, EOF only after the peer closed and everything was read); bounded plans: no operation fails, and within retx_threshold*(retx_max+1)+2d+8 rounds after the last fault activity the applications make progress until both directions delivered every byte and EOF (else Stall); exhaustion: every operation of a side that still owes acknowledged bytes fails instead of hanging. Non-trivial: >=1 planned fault fired on a packet and the connection carried >=2 data segments; distinct = distinct digests of (packet kind, fate, application outcome kind) sequences".into()
+        "wirekit: one TCP connection between two seeded application programs (write chunkings incl. 0/1-byte writes, poll_write or try_write, reader buffers of 1 byte ... larger than the transfer, peek, half-close by shutdown / dropped write half / stream drop after EOF, server- or client-speaks-first, late readers (first read k rounds after the connection is up, k below and beyond the retransmit budget) and sequential applications (first read only after the own writes are done or have failed), both directions at once, 0-2 KiB per direction) over the real turmoil-net stack on 2 hosts (IPv4/IPv6; plus loopback and own-address variants without wire faults), KernelConfig seeded (MSS 1..1460 via mtu, send/recv caps 1 B..64 KiB incl. below one MSS and below the transfer, retx_threshold 2-4, retx_max 1-6), on a hand-rolled executor whose poll order and spurious polls are scenario data. The harness is the wire: every packet between egress_all and deliver gets a fate (deliver / hold k rounds / drop) by packet index or by classified kind (SYN, SYN-ACK, handshake ACK, DATA, ACK, window update, FIN, RST), due packets are delivered in a scenario-chosen order. Fault enumeration: each fault-free seeded workload is run once to record its packet sequence, then re-run once per packet index x {drop, delay 1, delay d_max} (thorough: also all pairs for sequences <= 25 packets); plus seeded multi-fault plans inside the premise (drops <= retx_max-1, delays bounded so that all drops, one delayed segment and its delayed ACK on one round trip stay 4 rounds below retx_threshold*(retx_max+1)), a 1/16 slice end-to-end through turmoil-net's own fixture::ClientServer / fixture::lo (paused tokio runtime, built-in scheduler) with the plan installed as a Rule closure (Drop / Deliver(k ms)), exhaustion plans (everything / one direction lost from packet k on, k moved systematically over the recorded fault-free packet sequence; in half of them one application reads only after the stack must have given up) and unbounded plans (safety only). Oracle: safety always (bytes read/peeked equal the position-coded bytes the peer's writes accepted, EOF only after the peer closed and everything was read); bounded plans: no operation fails, and within retx_threshold*(retx_max+1)+2d+8 rounds after the last fault activity the applications make progress until both directions delivered every byte and EOF (else Stall); exhaustion: every operation of a side that still owes acknowledged bytes fails instead of hanging. Non-trivial: >=1 planned fault fired on a packet and the connection carried >=2 data segments; distinct = distinct digests of (packet kind, fate, application outcome kind) sequences".into()
     }
     fn components_real() -> Vec<&'static str> {
         vec!["turmoil-net: Net, EnterGuard (egress_all/deliver/set_current), kernel (tcp.rs state machine, retransmit, windows, segmentation), shim TcpListener/TcpStream/OwnedReadHalf/OwnedWriteHalf, netstat"]
@@ -41,7 +41,7 @@ impl Property for C06 {
         vec![
             "\"bounded\" is made checkable as: total drops D <= retx_max-1; if any packet is delayed by up to d_max rounds, retx_threshold*D + 2*d_max + 4 <= retx_threshold*(retx_max+1): all drops (one retransmission interval each) plus a delayed segment and its delayed ACK may fall on one round trip and still end before the abort point, with 4 rounds of quantisation slack (the emitting round, the ACK turn-around, inclusive vs exclusive reading of 'round trip below'); reordering only among packets due in the same round, for a finite prefix of rounds".into(),
             "liveness is judged only after the last fault activity (planned fault fired, packet still held, reordered round); Stall = no application-level progress for retx_threshold*(retx_max+1)+2*d_max+8 rounds with tasks still pending".into(),
-            "applications read whenever data is available and never write after closing; a side drops its stream only after it has seen EOF (a drop with unread data is an abortive close the property does not speak about)".into(),
+            "applications never write after closing; readers read whenever data is available, except late readers, which the scenario keeps asleep for a fixed number of rounds or until their own writer has returned (scenario-imposed waiting is not counted towards Stall); a side drops its stream only after it has seen EOF (a drop with unread data is an abortive close the property does not speak about)".into(),
             "in exhaustion mode only sides that still owe acknowledged bytes (or an unanswered SYN/FIN) are required to see an error; a side with nothing unacknowledged that merely waits for its peer has no retransmit budget to exhaust and is not judged (plain TCP without keep-alive)".into(),
             "packet duplication is not injected (outside the documented fault model); duplicates created by the stack's own retransmissions are of course present".into(),
             "KernelConfig is per Net, so both hosts share send/recv caps; asymmetry is send_buf_cap != recv_buf_cap".into(),
